@@ -12,8 +12,9 @@ CONSTANTS
   MaxMarks = 1
   PropAllowed = TRUE
   SetAllAllowed = TRUE
+  LateEdges = FALSE
   RoundNodes <- RN_4_0
 INIT MCInit
 NEXT MCNext
 CHECK_DEADLOCK FALSE
-INVARIANTS TypeOK EdgesOK BiSetsOK NoUseAfterFree PreparedOK RunOnce OrderOK AllRan AllComplete
+INVARIANTS PreparedOK RunOnce OrderOK AllRan AllComplete NoUseAfterFree
